@@ -27,7 +27,7 @@ BOUNDS = {
              "two targets (either order) on combined envelopes and composite product spaces; 2 operators",
     "thorough": "as quick plus Matrix level at every position",
 }
-OPTS = {"quick": {"max_paths": 48, "timeout_ms": 10000, "case_timeout_s": 900, "exact_close": True},
+OPTS = {"quick": {"max_paths": 160, "timeout_ms": 10000, "case_timeout_s": 900, "exact_close": True},
         "thorough": {"max_paths": 96, "timeout_ms": 30000, "case_timeout_s": 3000, "exact_close": True}}
 
 
